@@ -11,6 +11,7 @@
 package c12
 
 import (
+	"errors"
 	"fmt"
 	"reflect"
 	"sort"
@@ -62,6 +63,7 @@ type step struct {
 	hard     bool // db.Unscoped() as well (permanent delete of soft-delete targets)
 	byVal    bool // slice-level call on a []*Owner passed by value: db.Model(owners)
 	sliceLvl bool
+	none     bool // Append / Replace that names no target at all: no argument, or only empty / nil slices
 	owners   []*ownerVal
 	args     []arg
 	call     string
@@ -73,6 +75,18 @@ func (st *step) flat() []*targ {
 		out = append(out, a.ts...)
 	}
 	return out
+}
+
+// tsFor: the targets the call names for its i-th owner (Append / Replace on a slice of owners: the
+// i-th argument - none when the call has no arguments at all; otherwise every target of the call).
+func (st *step) tsFor(i int) []*targ {
+	if st.sliceLvl && (st.op == "Append" || st.op == "Replace") {
+		if i >= len(st.args) {
+			return nil
+		}
+		return st.args[i].ts
+	}
+	return st.flat()
 }
 
 func (s *relSpec) buildArg(form string, ts []*targ) arg {
@@ -101,6 +115,10 @@ func (s *relSpec) buildArg(form string, ts []*targ) arg {
 		} else {
 			a.val = sl.Interface()
 		}
+	case "nilslice":
+		// var items []T (nothing collected); Append(items)
+		a.val = reflect.Zero(reflect.SliceOf(s.targetT)).Interface()
+		a.lit = "[]" + tn + "(nil)"
 	case "sliceptr":
 		sl := reflect.MakeSlice(reflect.SliceOf(reflect.PointerTo(s.targetT)), len(ts), len(ts))
 		for i, t := range ts {
@@ -231,12 +249,7 @@ func (m *model) apply(st *step) *effect {
 	switch st.op {
 	case "Append", "Replace":
 		for i, ov := range st.owners {
-			var ts []string
-			if st.sliceLvl {
-				ts = keysOf(st.args[i].ts)
-			} else {
-				ts = keysOf(st.flat())
-			}
+			ts := keysOf(st.tsFor(i))
 			if st.op == "Append" {
 				m.appendTo(ov.ok, ts, st, eff)
 			} else {
@@ -614,8 +627,17 @@ func (k *kase) splitArgs(ts []*targ, forDelete bool) []arg {
 		args = append(args, k.spec.buildArg(core.Pick(k.r, forms), ts[:n]))
 		ts = ts[n:]
 	}
+	if (forDelete || !k.spec.single) && k.r.Chance(1, 10) {
+		// a slice in which nothing was collected among (Delete without targets: instead of) the arguments: it names no target
+		at := k.r.Intn(len(args) + 1)
+		e := k.spec.buildArg(core.Pick(k.r, emptyForms), nil)
+		args = append(args[:at], append([]arg{e}, args[at:]...)...)
+		k.c.Inc("calls_with_an_empty_slice_among_the_arguments")
+	}
 	return args
 }
+
+var emptyForms = []string{"slice", "ptrslice", "sliceptr", "nilslice"}
 
 func (k *kase) genStep(i int) *step {
 	r, s := k.r, k.spec
@@ -664,6 +686,9 @@ func (k *kase) genStep(i int) *step {
 	}
 	switch st.op {
 	case "Append", "Replace":
+		if k.genNone(st) {
+			break
+		}
 		if st.sliceLvl {
 			for idx, ov := range st.owners {
 				av := map[string]bool{}
@@ -720,7 +745,8 @@ func (k *kase) genStep(i int) *step {
 				}
 				ts := k.pickTargets(o, n, false, true, avoid, noOther)
 				if n == 0 {
-					st.args = []arg{s.buildArg(core.Pick(r, []string{"slice", "ptrslice"}), nil)}
+					st.none = true
+					st.args = []arg{s.buildArg(core.Pick(r, emptyForms), nil)}
 				} else {
 					st.args = k.splitArgs(ts, false)
 				}
@@ -770,6 +796,29 @@ func (k *kase) genStep(i int) *step {
 	}
 	st.call = call
 	return st
+}
+
+// genNone: every now and then an Append / Replace names no target at all - no argument (typically
+// Append(items...) with an empty list: every kind, one owner value or a slice of owner values), or
+// (multi-valued kinds, one owner value) only empty / nil slices in which nothing was collected.
+// Append then adds nothing - every link, record and in-memory field stays; Replace sets the empty set.
+func (k *kase) genNone(st *step) bool {
+	r, s := k.r, k.spec
+	den := 8
+	if st.op == "Replace" {
+		den = 14
+	}
+	if !r.Chance(1, den) {
+		return false
+	}
+	st.none = true
+	if st.sliceLvl || s.single || r.Chance(2, 5) {
+		return true // no argument at all
+	}
+	for i, n := 0, core.Pick(r, []int{1, 1, 2}); i < n; i++ {
+		st.args = append(st.args, s.buildArg(core.Pick(r, emptyForms), nil))
+	}
+	return true
 }
 
 func (k *kase) assoc(recv interface{}, st *step) *gorm.Association {
@@ -1028,6 +1077,30 @@ func (k *kase) run() {
 		snap := k.snapshot()
 		err, count, found := k.exec(st)
 		var ps []problem
+		if st.none {
+			c.Inc("steps_naming_no_target_" + st.op)
+			if len(st.args) == 0 {
+				c.Inc("steps_without_arguments_" + st.op)
+			}
+			if s.single {
+				c.Inc("steps_naming_no_target_single_valued_kind_" + st.op)
+			}
+			if st.op == "Append" {
+				linked := 0
+				for _, ov := range st.owners {
+					linked += len(k.m.links[ov.ok])
+				}
+				if linked > 0 {
+					c.Inc("append_nothing_to_owners_that_hold_links")
+				}
+			}
+		}
+		if err != nil && st.op == "Append" && st.sliceLvl && len(st.args) == 0 && errors.Is(err, gorm.ErrInvalidValueOfLength) {
+			// Append() without arguments on a slice of owners: gorm may refuse the call (one argument per
+			// owner is documented); refused or not, it names no target and must change nothing
+			c.Inc("append_without_arguments_on_owner_slice_refused(invalid length)")
+			err = nil
+		}
 		if err != nil {
 			ps = append(ps, problem{what: "error", msg: fmt.Sprintf("call returned error: %v", err)})
 		}
@@ -1066,10 +1139,7 @@ func (k *kase) run() {
 		c.Add("records_deleted_by_unscoped", len(eff.deleted))
 		// bookkeeping of what each value received
 		for idx, ov := range st.owners {
-			ts := st.flat()
-			if st.sliceLvl && (st.op == "Append" || st.op == "Replace") {
-				ts = st.args[idx].ts
-			}
+			ts := st.tsFor(idx)
 			switch st.op {
 			case "Append":
 				if s.single && len(ts) > 0 {
@@ -1094,8 +1164,10 @@ func (k *kase) run() {
 			}
 		}
 		if s.single && st.op == "Append" {
-			for _, ov := range st.owners {
-				ov.foreign = false // Append on has-one / belongs-to sets the only link
+			for idx, ov := range st.owners {
+				if len(st.tsFor(idx)) > 0 {
+					ov.foreign = false // Append on has-one / belongs-to sets the only link
+				}
 			}
 		}
 		robbed := map[*ownerVal]bool{}
@@ -1142,6 +1214,9 @@ func (k *kase) run() {
 		cls := map[string]bool{}
 		for _, t := range st.flat() {
 			cls[t.class] = true
+		}
+		if st.none {
+			cls[fmt.Sprintf("none(%d args)", len(st.args))] = true
 		}
 		k.shape = append(k.shape, fmt.Sprintf("%s/%v/%v/%s/%v", st.op, st.unscoped, st.sliceLvl, strings.Join(sortedKeys(cls), "+"), eff.changed))
 	}
@@ -1250,14 +1325,8 @@ func sameLinks(model map[string]map[string]bool, db map[string]map[string]int) b
 }
 
 func argKeys(st *step, i int) []string {
-	var ts []*targ
-	if st.sliceLvl && (st.op == "Append" || st.op == "Replace") {
-		ts = st.args[i].ts
-	} else {
-		ts = st.flat()
-	}
 	var out []string
-	for _, t := range ts {
+	for _, t := range st.tsFor(i) {
 		if t.key != "" {
 			out = append(out, t.key)
 		}
@@ -1315,10 +1384,7 @@ func (k *kase) sig(st *step, ps []problem, sn *snapshot, applied bool) string {
 		alt := cloneSets(k.m.links)
 		shifted := false
 		for i, ov := range st.owners {
-			ts := st.flat()
-			if st.sliceLvl {
-				ts = st.args[i].ts
-			}
+			ts := st.tsFor(i)
 			set := map[string]bool{}
 			if st.op == "Append" {
 				for t := range sn.links[ov.ok] {
@@ -1415,6 +1481,9 @@ func (k *kase) sig(st *step, ps []problem, sn *snapshot, applied bool) string {
 		return "count-find-through-unscoped-handle-differs:" + s.name + ":after-" + st.op
 	}
 	parts := []string{ps[0].what, s.name, st.op}
+	if st.none {
+		parts = append(parts, "no-targets")
+	}
 	if st.unscoped {
 		parts = append(parts, "unscoped")
 	}
@@ -1441,10 +1510,13 @@ var Engine = &core.Engine{
 		"key shapes: belongs to a record with an application-assigned string key, belongs to a record with a two-column (integer,string) key through value key columns, has many through a two-column foreign key, many-to-many with two-column keys on both sides - in these three the keys are drawn from pools in which a part holds its zero value (site 0, slug \"\", locale \"\") and keys share parts) " +
 		"x owner mode (one owner value; two owner values; a slice of 2..3 owner values - []Owner or []*Owner, the latter also passed by value - incl. calls on single elements) x scoping (scoped; Unscoped; mixed) are enumerated from the case index; " +
 		"owners/targets/links are seeded with raw SQL (bystander owners, a decoy polymorphic owner type with equal keys, optionally links of the operated owners; soft-delete kinds: 0..3 leftovers of earlier removals that are not links - soft-deleted target rows whose key column still names an owner, soft-deleted join rows); 3..8 random steps Append/Replace/Delete/Clear/Count/Find (every one of them, Count and Find included, through Association(..) or Association(..).Unscoped() according to the scoping of the case; writes on soft-delete kinds also behind db.Unscoped()) with targets drawn from brand-new (key from the database), brand-new with a key chosen by the application, a value of a record that an earlier Unscoped step of the sequence removed for good (key still set), existing unlinked, already linked, linked to another owner, duplicate-in-call, and (Delete) a record without a row, in literal forms &T, T, []T, &[]T, []*T; " +
+		"calls that name NO target: about one Append in eight and one Replace in ten has no argument at all (Append(items...) with an empty list - every kind incl. has one / belongs to / polymorphic has one, one owner value and a slice of owner values) or (multi-valued kinds) only empty / nil slices ([]T{}, &[]T{}, []*T{}, []T(nil)); one call in ten (multi-valued Append/Replace, every Delete) carries such an empty slice among its other arguments; Delete without targets is Delete() or Delete(<empty slice>); Append of nothing must leave links, records, Count/Find and the in-memory field as they are (on owners that hold links: counted), Replace of nothing is Clear; " +
 		"after every step raw-SQL links and target rows, Count/Find (operated value and fresh value through a scoped handle, fresh value also through an Unscoped() association handle) and the in-memory relation field are compared with the link-set model; distinct = (kind, key pools, owner mode, slice element kind, scoping, per step: op, unscoped, slice-level, target classes, changed); non-trivial = at least two steps changed the link set",
 	Assumptions: []string{
 		"every association call is made on a fresh db.Model(value).Association(name) (association handles are not reusable)",
-		"has-one / belongs-to Append and Replace get exactly one target (&T) per owner; Append/Replace on a slice of owners get exactly one argument per owner (association.go: ErrInvalidValueOfLength otherwise)",
+		"has-one / belongs-to Append and Replace get exactly one target (&T) per owner, or no argument at all; Append/Replace on a slice of owners get exactly one argument per owner (association.go: ErrInvalidValueOfLength otherwise), or no argument at all",
+		"a slice argument (empty or not) is never passed to a has-one / belongs-to Append / Replace: which element becomes the target, and what an empty one means there, is not fixed by the statement (gorm forwards it to Replace, which re-saves the owner's in-memory field)",
+		"Append() without arguments on a slice of owners: gorm may refuse it with ErrInvalidValueOfLength (it does for has many / many-to-many) or accept it (has one / belongs to); either way the call names no target and everything must stay as it is; any other error is a violation",
 		"target arguments are addressable (&T, slices); a plain struct value T is only passed to Delete",
 		"records that have no row (brand-new, with or without a key; removed earlier) are never passed twice in one call; brand-new records are never passed to Delete (a key without a row is: it must change nothing)",
 		"a key never consists of zero values only (gorm treats an all-zero key as 'no key' by design); keys with SOME zero-valued part are generated for owners and targets",
@@ -1456,7 +1528,7 @@ var Engine = &core.Engine{
 		"belongs-to cases with Unscoped steps never link one target to two owners (deleting a shared target would leave a dangling key the statement says nothing about)",
 		"an Unscoped Append/Replace on a slice of has-one/has-many owners never moves a target between two owners of that call",
 		"Count on a slice of owners is accepted between the number of distinct linked records and the number of links",
-		"Delete() without targets is generated for every kind (multi-column keys too, since the empty multi-column IN renders a row of NULLs) and must change nothing",
+		"Delete() / Delete(<empty slice>) without targets is generated for every kind (multi-column keys too, since the empty multi-column IN renders a row of NULLs) and must change nothing",
 		"many-to-many: Unscoped removes join rows only (targets survive), as scoped",
 		"Association(..).Unscoped() only changes what a removal does to the associated records: Count and Find through an Unscoped() handle must report exactly the links, as through a scoped handle (checked after every step on every kind); Count / Find behind db.Unscoped() (which reads soft-deleted rows on purpose) are not generated",
 		"soft-deleted target rows whose key column still names an owner, and soft-deleted join rows of a soft-delete join model, are not links (that is what an Unscoped resp. any removal leaves behind); they are seeded as well and never passed as arguments",
